@@ -84,9 +84,10 @@ def build(variant: str = 'plain', quiet: bool = True) -> Path:
         if out.exists():
             shutil.rmtree(out)
         # drop stale builds of this variant (disk is limited)
-        for old in BUILD_ROOT.glob(f'{variant}-*'):
-            if old != out:
-                shutil.rmtree(old, ignore_errors=True)
+        olds = sorted((d for d in BUILD_ROOT.glob(f'{variant}-*') if d != out),
+                      key=lambda d: d.stat().st_mtime)
+        for old in olds[:-2]:   # keep the two most recent other builds (clean tree + one patched)
+            shutil.rmtree(old, ignore_errors=True)
         obj = out / 'obj'
         obj.mkdir(parents=True)
         inc = ['-I', str(REPO / 'include'), '-isystem', PYBIND_INC, '-isystem', _py_include()]
